@@ -70,6 +70,12 @@ def run(ctx: Ctx, aspect="verdict"):
     reuse_stream(ctx, s, ctx.size(1500, 20000))
     s.finish()
     if not ctx.violations:
+        from ..rules_common import respecify_stream
+
+        s = Stream(ctx, "subjects / objects specified twice at the same position: the last specification counts")
+        respecify_stream(ctx, s, ctx.size(2000, 30000))
+        s.finish()
+    if not ctx.violations:
         from ..rules_common import scanned_equiv_stream
 
         s = Stream(ctx, "scanned architectures (default, externals included, level limit) vs architectures built directly from the same modules and imports")
